@@ -86,6 +86,9 @@ def outcome(fn):
         d = {"out": "ok", "obs": observe(p)}
         try:
             d["dump"] = blackbird.dumps(p)
+            again = blackbird.dumps(p)
+            if again != d["dump"]:
+                d["dump_again"] = again       # serialising the same object twice gives two texts
         except Exception as e:  # noqa: BLE001
             d["dump_error"] = "%s: %s" % (type(e).__name__, str(e)[:200])
         return d
